@@ -262,9 +262,11 @@ IMPL_TIMEOUT = float(os.environ.get("VERIF_IMPL_TIMEOUT", "60"))
 _timeouts_seen = 0  # after the first non-terminating call of a run the limit drops to 5 s: the finding exists, the run should still end
 
 
-def impl(fn, *a, **k):
+def impl(fn, *a, _slow=1.0, **k):
     """Run one call of the implementation: whatever it raises is an observation (ImplError); a call that does not return
-    within IMPL_TIMEOUT seconds is observed as DoesNotTerminate instead of hanging the check (main thread only)."""
+    within IMPL_TIMEOUT seconds is observed as DoesNotTerminate instead of hanging the check (main thread only).
+    The limit is wall-clock time, so it is stretched by the machine's load (runnable processes per core) and by `_slow`
+    for calls that are slow by construction (a pool of spawned worker processes per compute)."""
     import signal
     import threading
     import warnings
@@ -273,6 +275,10 @@ def impl(fn, *a, **k):
 
     global _timeouts_seen
     limit = IMPL_TIMEOUT if _timeouts_seen == 0 else min(IMPL_TIMEOUT, 5.0)
+    try:
+        limit *= _slow * max(1.0, os.getloadavg()[0] / (os.cpu_count() or 1))
+    except OSError:
+        limit *= _slow
 
     def on_alarm(signum, frame):
         global _timeouts_seen
